@@ -81,6 +81,8 @@ def cases(tier, seed):
         (sl, ('s', 1, 3, None)), (sl, A), ('E', ('a', (1, 1))), (A, 'E'), (1, 'E', ('a', ((0, 1), (1, 1)))),
         (A, sl, 0), (A, B), (A, sl, B), (0, A), (sl, ('a', (2, -3, 0, 0)), 1), (('m', (True, False)),), ('E', ('m', (True, True))),
         (sl, ('m', (False, True, True))), (('s', None, None, -1),), (sl, ('s', 2, 0, -1), sl), (('a', (-2, 1)), ('s', 0, 2, None), 'E'),
+        (sl, 'E', A), (sl, 'E', ('a', (1, 1))), ('E', A, sl), ('E', ('a', (0, 0, 1)), sl), (sl, A, 'E'), (sl, sl, 'E', ('a', (1, 1, 0))), (0, 'E', ('a', (1, 1))),
+        ('E', ('a', (2, 2, 0)), sl), (sl, 'E', ('a', ((1, 1), (0, 1)))),
     ]
     for c in combos:
         out.append(('idx', ((2, 3, 2),), c))
@@ -298,6 +300,16 @@ def _pack_case(key, twin):
         b1, _, _ = E.run(ctx, ppt(True), [('y', outs, 'sym')])
         res.append(('pack-PPT', dec.decide(ctx, pairs(a1, b1, ctx))))
         res.append(('pack-PPT-id', dec.decide(ctx, pairs(b1, y, ctx))))
+
+        def ptp(reduce):
+            def f(x):
+                p = PackOperator(mask, ins)
+                a = p.T @ p
+                return (a.reduce() if reduce else a).mv(x)
+            return f
+        a2, _, _ = E.run(ctx, ptp(False), [('x', ins, 'sym')])
+        b2, _, _ = E.run(ctx, ptp(True), [('x', ins, 'sym')])
+        res.append(('pack-PTP', dec.decide(ctx, pairs(a2, b2, ctx))))
     common = dict(prims=sorted(ctx.prims), **dec.stats())
     nob = common.pop('obligations')
     bad = [(n, r) for n, r in res if r.status != 'unsat']
@@ -339,6 +351,8 @@ def replay(key, model, info):
                     z[mask_np] = np.asarray(l)
                     return z
                 close, msg = trees_close(op.T.mv(y), jax.tree.map(sc, y, ins))
+            elif kind == 'pack-PTP':
+                close, msg = trees_close((op.T @ op).reduce().mv(x), (op.T @ op).mv(x))
             elif kind in ('pack-PPT', 'pack-PPT-id'):
                 close, msg = trees_close((op @ op.T).reduce().mv(y), (op @ op.T).mv(y))
                 if close and kind == 'pack-PPT-id':
